@@ -113,6 +113,10 @@ func SetupNode(custom *config.Custom, store storage.Store, cache *ristretto.Cach
 		return nil, fmt.Errorf("LoadConsensusNodes() => %v", err)
 	}
 	s, txs := node.persistStore.LastSnapshot()
+	err = node.repairConsensusState(s.TopologicalOrder)
+	if err != nil {
+		return nil, fmt.Errorf("repairConsensusState(%d) => %v", s.TopologicalOrder, err)
+	}
 	if len(txs) == 1 {
 		err = node.reloadConsensusState(s.Snapshot, txs[0])
 		if err != nil {
@@ -131,6 +135,33 @@ func SetupNode(custom *config.Custom, store storage.Store, cache *ristretto.Cach
 	logger.Printf("Node Id:\t%s\n", node.IdForNetwork.String())
 	logger.Printf("Topology:\t%d\n", node.TopoCounter.seq)
 	return node, nil
+}
+
+// A crash between WriteSnapshot and WriteConsensusSnapshot leaves the consensus marker
+// behind a finalized consensus snapshot, and other chains may have written snapshots
+// after it, so replay every snapshot between the marker and the last topology entry.
+func (node *Node) repairConsensusState(end uint64) error {
+	last, _ := node.ReadLastConsensusSnapshotWithHack()
+	mark, err := node.persistStore.ReadSnapshot(last.PayloadHash())
+	if err != nil || mark == nil {
+		return fmt.Errorf("ReadSnapshot(%s) => %v %v", last.PayloadHash(), mark, err)
+	}
+	for topo := mark.TopologicalOrder + 1; topo < end; {
+		ss, txs, err := node.persistStore.ReadSnapshotWithTransactionsSinceTopology(topo, 500)
+		if err != nil || len(ss) == 0 {
+			return err
+		}
+		for i, s := range ss {
+			if s.TopologicalOrder < end && len(txs[i]) == 1 {
+				err = node.reloadConsensusState(s.Snapshot, txs[i][0])
+				if err != nil {
+					return err
+				}
+			}
+		}
+		topo = ss[len(ss)-1].TopologicalOrder + 1
+	}
+	return nil
 }
 
 func (node *Node) loadNodeConfig() {
